@@ -236,9 +236,60 @@ def check(tier: str) -> int:
         else:
             replay["no_longer_checks"] = "Heartbeat.v (theorems of coq/props/C08.v) vs HeartbeatManager"
             ck.violation("correspondence", replay, found_input=False)
+    api_level(ck, dist)
+    ck.extra["input_distribution"] = dict(dist)
     ck.sample({"config_ticks": [oi, ot], "script": fixed[0][:6]})
     ck.sample({"script": [list(x) for x in scripts[-1]][:20]})
     return ck.finish()
+
+
+def api_level(ck, dist) -> None:
+    """'Once initialised': the statement's conclusions observed on whole clients (pyairtouch.connect + init) against
+    scripted consoles, for every way the handshake can end (AT4 bitmap / old format, AT5 with and without zones)."""
+    from . import console
+    T = 1024
+    shapes = [(4, 1, 3), (4, 2, 5), (4, 4, 16), (5, 1, 3), (5, 2, 5), (5, 1, 0), (5, 3, 0)]
+    for gen, n_acs, n_zones in shapes:
+        for silent in (False, True):
+            inst = console.simple_installation(gen, n_acs, n_zones)
+            rig = console.ApiRig(inst)
+            try:
+                r, _ = rig.init()
+                ck.count()
+                dist["api_level_clients"] += 1
+                replay = {"kind": "heartbeat-api", "gen": gen, "acs": n_acs, "zones": n_zones, "console_silent_after_init": silent,
+                          "trigger": {"class": "heartbeat-api", "gen": gen, "zones": n_zones, "silent": silent}}
+                if r != ("ok", True):
+                    ck.violation("init() failed in the heartbeat scenario", dict(replay, failure=str(r)), found_input=False)
+                    continue
+                t0 = rig.now_ticks()
+                m0 = len(rig.console.requests)
+                cid0 = rig.net.current().cid
+                if silent:
+                    rig.console.silent_from = 0
+                rig.advance(300 * T + 2)
+                beats = [int(round(q[0] * 1024)) - t0 for q in rig.console.requests[m0:] if q[2] == "version"]
+                if not beats or beats[-1] != 300 * T:
+                    ck.violation("no console-version request 300 s after initialisation",
+                                 dict(replay, failure=f"version requests after init at ticks {beats} (expected one at {300 * T})"))
+                    continue
+                rig.advance(31 * T)
+                cur = rig.net.current()
+                was_reset = cur is None or cur.cid != cid0
+                if silent and not was_reset:
+                    ck.violation("the link was not reset after 330 s without a console-version response",
+                                 dict(replay, failure="same connection 331 s after initialisation although the console never answered"))
+                if not silent and was_reset:
+                    ck.violation("the heartbeat reset a link on which every heartbeat was answered", dict(replay, failure="connection replaced"))
+                if not silent:
+                    rig.advance(900 * T)
+                    cur = rig.net.current()
+                    beats = [int(round(q[0] * 1024)) - t0 for q in rig.console.requests[m0:] if q[2] == "version"]
+                    if cur is None or cur.cid != cid0 or beats[-3:] != [600 * T, 900 * T, 1200 * T]:
+                        ck.violation("heartbeats on an answered link are not every 300 s / reset the link",
+                                     dict(replay, failure=f"version requests at {beats}, connection {'replaced' if cur is None or cur.cid != cid0 else 'kept'}"))
+            finally:
+                rig.close()
 
 
 def main() -> int:
